@@ -98,6 +98,41 @@ func implChunkBuffered(line string) string {
 	return chunkSeq(&fragReader{data: unhx(a["data"]), frags: frags}, min, avg, max)
 }
 
+// implChunkOps: a sequence of Next (N) and Advance (A<n>) calls on a chunker over a seekable reader
+func implChunkOps(line string) string {
+	_, a := parseCase(line)
+	var min, avg, max uint64
+	fmt.Sscan(a["min"], &min)
+	fmt.Sscan(a["avg"], &avg)
+	fmt.Sscan(a["max"], &max)
+	return guard(func() string {
+		c, err := desync.NewChunker(bytes.NewReader(unhx(a["data"])), min, avg, max)
+		if err != nil {
+			return "err params"
+		}
+		var out []string
+		for _, op := range strings.Split(a["ops"], ",") {
+			if op == "" {
+				continue
+			}
+			if op == "N" {
+				s, b, err := c.Next()
+				if err != nil {
+					return "err other"
+				}
+				out = append(out, fmt.Sprintf("%d:%d", s, len(b)))
+				continue
+			}
+			var n int
+			fmt.Sscan(op[1:], &n)
+			if err := c.Advance(n); err != nil {
+				return "err advance"
+			}
+		}
+		return strings.Join(out, ",")
+	})
+}
+
 func implChunkDisc(line string) string {
 	_, a := parseCase(line)
 	var avg uint64
@@ -338,6 +373,37 @@ func runC02(cfg Config) {
 				monitor("chunk sequence depends on read fragmentation", bl, bres+" vs "+res, "")
 			}
 		}
+	}
+
+	// (b') Next/Advance sequences (the parallel chunker's fast-forward uses Advance) vs model Buffered.next/advance
+	for it := 0; it < cfg.N(400, 8000); it++ {
+		p := genParams(rng)
+		data, kind := genData(rng, p, 8000)
+		var ops []string
+		for k := 0; k < 2+rng.Intn(14); k++ {
+			if rng.Intn(3) == 0 {
+				n := 0
+				switch rng.Intn(5) {
+				case 0:
+					n = int(p.max) * rng.Intn(4)
+				case 1:
+					n = rng.Intn(int(p.max)*11 + 1) // across the 10*max buffer
+				case 2:
+					n = rng.Intn(50)
+				case 3:
+					n = len(data) + rng.Intn(10) // to or beyond the end
+				default:
+					n = rng.Intn(len(data) + 1)
+				}
+				ops = append(ops, fmt.Sprintf("A%d", n))
+			} else {
+				ops = append(ops, "N")
+			}
+		}
+		d := desync.VerifDiscriminatorFromAvg(p.avg)
+		line := fmt.Sprintf("chunk.ops min=%d avg=%d max=%d d=%d frags= ops=%s data=%s", p.min, p.avg, p.max, d, strings.Join(ops, ","), hx(data))
+		rep.Compare(m, line, implChunkOps, nil)
+		rep.Count(line, len(ops) > 3, "ops:"+kind)
 	}
 
 	// (d) parallel file chunking and ChunkStream = sequential, full index equality
